@@ -129,13 +129,32 @@ TExecReturn ==
   /\ mainPc = "done" /\ err = "none"
   /\ UNCHANGED vars
 
+\* Reset: the log holds several recorded builds of the same source (same graph); each starts from Init
+TReset ==
+  /\ IsEvent("Reset")
+  /\ pending' = InitIds
+  /\ racc' = [i \in Ids |-> InitRead(i)]
+  /\ launched' = {}
+  /\ count' = [d \in Discs |-> Cardinality({i \in InitIds : Disc(i) = d})]
+  /\ succ' = {}
+  /\ jobCount' = Cardinality(InitIds)
+  /\ queue' = {} /\ active' = {} /\ decd' = {} /\ finished' = {} /\ bad' = {}
+  /\ chan' = <<>>
+  /\ mainPc' = "loop"
+  /\ batch' = <<>>
+  /\ sawErr' = FALSE
+  /\ abort' = FALSE
+  /\ err' = "none"
+  /\ lastw' = [x \in Items |-> 0]
+  /\ rfbad' = FALSE
+
 Silent == (DrainEndWith(FALSE) \/ HandleEnd \/ LoopExit) /\ UNCHANGED l
 
 TraceInit == Init /\ l = 1
 
 TraceNext ==
   \/ TLaunch \/ TStart \/ TAborted \/ TEnd \/ TSend \/ TRecv \/ TRecvLate \/ THandle
-  \/ TCompleteOne \/ TUnable \/ TScopeDone \/ TExecReturn
+  \/ TCompleteOne \/ TUnable \/ TScopeDone \/ TExecReturn \/ TReset
   \/ Silent
 
 TraceSpec == TraceInit /\ [][TraceNext]_tvars
